@@ -30,7 +30,9 @@ func (o SortOrder) Fields() (fields []string) {
 
 func (o SortOrder) Copy() SortOrder {
 	rv := make(SortOrder, len(o))
-	copy(rv, o)
+	for i, s := range o {
+		rv[i] = s.copy()
+	}
 	return rv
 }
 
@@ -91,6 +93,28 @@ func SortBy(source TextValueSource) *Sort {
 		first: &rv.missingFirst,
 	})
 
+	return rv
+}
+
+// copy returns an independent Sort, changing the direction of the
+// copy (see SortOrder.Reverse) must not affect the original
+func (s *Sort) copy() *Sort {
+	rv := &Sort{
+		source:       s.source,
+		desc:         s.desc,
+		missingFirst: s.missingFirst,
+	}
+	// the placeholder for missing values follows the direction of the
+	// Sort it was built for, point it at the copy
+	if mtv, ok := s.source.(*MissingTextValueSource); ok {
+		if sfl, ok := mtv.replacement.(*sortFirstLast); ok &&
+			sfl.desc == &s.desc && sfl.first == &s.missingFirst {
+			rv.source = MissingTextValue(mtv.primary, &sortFirstLast{
+				desc:  &rv.desc,
+				first: &rv.missingFirst,
+			})
+		}
+	}
 	return rv
 }
 
